@@ -1,0 +1,56 @@
+//go:build verif
+
+package cache
+
+import (
+	"github.com/thought-machine/please/src/core"
+)
+
+// A VerifDirCache exposes the directory cache to external monitors.
+type VerifDirCache struct {
+	c *dirCache
+}
+
+// VerifNewDirCache creates a new directory cache from the given config.
+func VerifNewDirCache(config *core.Configuration) *VerifDirCache {
+	return &VerifDirCache{c: newDirCache(config)}
+}
+
+// Cache returns the underlying cache as the public interface.
+func (v *VerifDirCache) Cache() core.Cache { return v.c }
+
+// Store stores files for a target under a key.
+func (v *VerifDirCache) Store(target *core.BuildTarget, key []byte, files []string) {
+	v.c.Store(target, key, files)
+}
+
+// Retrieve retrieves files for a target under a key.
+func (v *VerifDirCache) Retrieve(target *core.BuildTarget, key []byte, files []string) bool {
+	return v.c.Retrieve(target, key, files)
+}
+
+// Clean runs one pass of the cache cleaner.
+func (v *VerifDirCache) Clean(highWaterMark, lowWaterMark uint64) uint64 {
+	return v.c.clean(highWaterMark, lowWaterMark)
+}
+
+// Path returns the location of an entry in the cache.
+func (v *VerifDirCache) Path(target *core.BuildTarget, key []byte) string {
+	return v.c.getPath(target, key, "")
+}
+
+// IsMarked returns true if the given path is protected from cleaning.
+func (v *VerifDirCache) IsMarked(path string) bool {
+	_, marked := v.c.isMarked(path)
+	return marked
+}
+
+// VerifNewHTTPCache creates a new HTTP cache from the given config.
+func VerifNewHTTPCache(config *core.Configuration) core.Cache {
+	return newHTTPCache(config)
+}
+
+// VerifNewCmdCache creates a new command cache from the given config.
+func VerifNewCmdCache(config *core.Configuration) core.Cache {
+	return newCmdCache(config)
+}
